@@ -128,34 +128,39 @@ def _selftest_case(rows):
           "exc": ""}
 
 
-def _selftests(files, workdir):
+def _selftests(files, failures, workdir):
   """
   The demonstration of the binding, one TLC run over four cases:
-    1 a recorded case of the real engine with its last returned row dropped    -> must be rejected
-    2 a result that drops the row holding True for the query [1] (1 == True)   -> must be rejected
-    3 a result with the formula column although formulas=False                 -> must be rejected
-    4 the correct result of 2/3 (the rejection is not blanket)                 -> must be accepted
+    1 a result that drops the row holding True for the query [1] (1 == True)   -> must be rejected
+    2 a result with the formula column although formulas=False                 -> must be rejected
+    3 the correct result of 1/2 (the rejection is not blanket)                 -> must be accepted
+    4 a recorded case of the real engine that the judge accepted, with its last returned row
+      dropped                                                                  -> must be rejected
+  (case 4 is left out if the tree is so broken that no accepted case has a non-empty result)
   """
+  failed = set((f["file"], f["i"]) for f in failures)
   recorded = None
   for f in files:
-    for case in json.load(open(f)):
-      if case["out"]["rows"] and not case["exc"]:
+    for k, case in enumerate(json.load(open(f))):
+      if case["out"]["rows"] and not case["exc"] and (f, k + 1) not in failed:
         recorded = json.loads(json.dumps(case))
         break
     if recorded:
       break
-  if recorded is None:
-    raise fnspec.tlc.MachineryError("self-test: no recorded case with a non-empty result")
-  recorded["out"]["rows"].pop()
-  for c in recorded["out"]["cols"]:
-    c["v"].pop()
   with_formula = _selftest_case([1, 2])
   with_formula["out"]["cols"].append({"id": "F", "v": [1, 3]})
+  cases = [_selftest_case([1]), with_formula, _selftest_case([1, 2])]
+  want = {1: ["C41.rows"], 2: ["C41.cols"]}
+  if recorded is not None:
+    recorded["out"]["rows"].pop()
+    for c in recorded["out"]["cols"]:
+      c["v"].pop()
+    cases.append(recorded)
+    want[4] = ["C41.rows"]
   p = os.path.join(workdir, "selftest.json")
-  json.dump([recorded, _selftest_case([1]), with_formula, _selftest_case([1, 2])], open(p, "w"))
+  json.dump(cases, open(p, "w"))
   results, _ = fnspec.tlc.validate_shards(SPEC, [p], workdir, parallel=1)
   got = {r["i"]: sorted(r["c"]) for r in results}
-  want = {1: ["C41.rows"], 2: ["C41.rows"], 3: ["C41.cols"]}
   if got != want:
     raise fnspec.tlc.MachineryError("self-test: Trace_FetchQuery judged the corrupted/correct cases %r, "
                                     "expected %r" % (got, want))
@@ -198,7 +203,7 @@ def run(ctx):
   ctx.log("judged %d cases (%d enumerated, %d random) in %.1fs" % (n, len(inputs), len(rnd), wall))
   if n != len(inputs) + len(rnd):
     raise fnspec.tlc.MachineryError("recorded %d cases for %d inputs" % (n, len(inputs) + len(rnd)))
-  _selftests(files, ctx.workdir)
+  _selftests(files, failures, ctx.workdir)
 
   stats = _stats(files)
   nontrivial = sum(1 for i in inputs if i["q"] and i["t"])
